@@ -121,7 +121,29 @@ def explore(
             init()
 
     def work(i: int, case: Any) -> Outcome:
-        return run_case(case)
+        try:
+            return run_case(case)
+        except H.HarnessError:
+            raise
+        except Exception as e:  # noqa: BLE001
+            # An exception that escapes from zorg's own code while the check drives it with an
+            # input of the property's domain is behaviour of the code under test, not a flaw of
+            # the harness: it is reported as a violation (the runner still has to reproduce it).
+            # Anything raised by the check's own code stays a harness error.
+            import traceback as _tb
+
+            frames = _tb.extract_tb(e.__traceback__)
+            owner = next((f for f in reversed(frames)
+                          if f.filename.startswith(("/verif/", "/repo/src/"))), None)
+            if owner is None or not owner.filename.startswith("/repo/src/"):
+                raise
+            out = Outcome()
+            out.ok = False
+            out.sig = f"exception-in-zorg:{type(e).__name__}@{owner.filename.rsplit('/', 1)[-1]}:{owner.name}"
+            out.detail = {"case": jsonable(case), "error": f"{type(e).__name__}: {e}",
+                          "traceback_tail": [f"{f.filename}:{f.lineno} {f.name}" for f in frames[-6:]]}
+            out.obs = H.digest(out.sig)
+            return out
 
     def fold(acc: Report, i: int, case: Any, out: Outcome) -> None:
         acc.evaluations += out.n_evals
